@@ -144,13 +144,14 @@ func ruleIsBaseURL(w *World, r *Report, rule string) {
 		r.Undecided(rule, key, "-", "isBaseURL not found")
 		return
 	}
-	e := &ddEngine{w: w, env: map[ssa.Value]aval{}, maxLeafs: 16}
+	e := &ddEngine{w: w, env: map[ssa.Value]aval{}, maxLeafs: 16, concreteAtoms: true}
 	e.run(f)
 	var bads []string
 	if e.err != nil {
 		bads = append(bads, "cannot evaluate: "+e.err.Error())
 	}
 	schemes := map[string]bool{"http://": true, "https://": true}
+	reKeyPrefix := regexp.MustCompile(`^strings\.HasPrefix\(\$` + regexp.QuoteMeta(f.Params[0].Name()) + `,("(?:[^"\\]|\\.)*")\)$`)
 	trueFor := map[string]bool{}
 	for _, l := range e.leaves {
 		if l.ret == nil || len(l.results) != 1 {
@@ -161,6 +162,14 @@ func ruleIsBaseURL(w *World, r *Report, rule string) {
 		okAtoms := true
 		for k, chosen := range l.atoms {
 			p, ok := hasPrefixAtom(f, l.atomVal[k])
+			if !ok {
+				// the prefix comes from a table walked by a loop: the key carries the element's value on this path
+				if m := reKeyPrefix.FindStringSubmatch(k); m != nil {
+					if u, err := strconv.Unquote(m[1]); err == nil {
+						p, ok = u, true
+					}
+				}
+			}
 			if !ok || !schemes[p] {
 				bads = append(bads, "a condition other than a scheme-prefix test of the argument decides the result ("+k+")")
 				okAtoms = false
@@ -1898,8 +1907,13 @@ func ruleLoopGoesOn(w *World, r *Report, rule, key string, anchor ssa.Instructio
 	}
 	inLoop := map[*ssa.BasicBlock]bool{header: true}
 	for _, b := range header.Parent().Blocks {
-		if header.Dominates(b) && reach(b, header) {
-			inLoop[b] = true
+		if !header.Dominates(b) {
+			continue
+		}
+		for _, p := range header.Preds {
+			if header.Dominates(p) && (b == p || blockReachesAvoiding(b, p, header)) {
+				inLoop[b] = true
+			}
 		}
 	}
 	var exits []*ssa.BasicBlock // where the header itself leaves the loop
@@ -2367,4 +2381,24 @@ func deref(t types.Type) types.Type {
 		return p.Elem()
 	}
 	return t
+}
+
+// ruleGlobArgs: a command body expands its pattern on the source side: glob(c.SrcBase, c.<pattern field>).
+func ruleGlobArgs(w *World, r *Report, rule string, f, glob *ssa.Function, patternField string) {
+	if f == nil || glob == nil {
+		r.Undecided(rule, "glob-args", "-", "command body or glob function not found")
+		return
+	}
+	key := funcName(f) + ":glob-args"
+	cs := callsTo(f, glob)
+	if len(cs) == 0 {
+		r.Undecided(rule, key, w.pos(f.Pos()), "no call of "+funcName(glob)+" found")
+		return
+	}
+	for _, c := range cs {
+		ex := newExprCtx(w)
+		a0, a1 := ex.expr(c.Common().Args[0]), ex.expr(c.Common().Args[1])
+		r.Check(a0 == "p0.SrcBase" && a1 == "p0."+patternField, rule, key, w.instrPos(c), "matches "+patternField+" under SrcBase",
+			funcName(f)+" expands "+funcName(glob)+"("+a0+", "+a1+") instead of (c.SrcBase, c."+patternField+"): the files/items worked on are not the ones matched on the source side")
+	}
 }
